@@ -294,42 +294,7 @@ func propC05(c *Ctx, r *Report) {
 		r.check(okk, "C05-R5/revalidation", "applyTransactionBatch in the holding executor", c.ipos(ex), "dominated by the nil edge of txBatch.Validate(int32(currentHeight))", "a held batch is executed without being validated again at the executing height (its timestamp salt may have left the validity window, or the accepted key types changed)")
 	}
 
-	// R6 ValidData table
-	r.rule("C05-R6/valid-data", 4, "version, non-empty, single input address")
-	vd := c.fn("fat2.TransactionBatch.ValidData")
-	acc := newTableAcc()
-	for _, cs := range []struct {
-		name    string
-		version uint64
-		ntx     int64
-		nuniq   int64
-		ok      bool
-	}{
-		{"version 1, one input address", 1, 2, 1, true},
-		{"version 2", 2, 2, 1, false},
-		{"version 0", 0, 2, 1, false},
-		{"no transactions", 1, 0, 1, false},
-		{"two input addresses", 1, 2, 2, false},
-		{"zero input addresses", 1, 2, 0, false},
-	} {
-		// len(uniqueInputs): the map is a local make; bind the builtin len of a map-typed local by a dedicated key
-		sc := &Scenario{Paths: map[string]AVal{"fat2.TransactionBatch.Version": cUint(cs.version)},
-			Lens:  map[string]AVal{"fat2.TransactionBatch.Transactions": cInt(cs.ntx), "<local map>": cInt(cs.nuniq)},
-			Calls: map[string]AVal{"fat2.Transaction.Validate": nilVal}, MaxDepth: 0}
-		s := newSCCP(c, sc)
-		st := s.run(vd, nil, 0)
-		acc.absorb(s)
-		r.Scen++
-		errs := errorReturns(st)
-		hasNil := false
-		for _, x := range errs {
-			if x == "nil" {
-				hasNil = true
-			}
-		}
-		r.check(hasNil == cs.ok, "C05-R6/valid-data", cs.name, c.pos(vd.Pos()), map[bool]string{true: "accepted", false: "rejected"}[cs.ok], fmt.Sprintf("results %v, expected %s", errs, map[bool]string{true: "accepted", false: "rejected"}[cs.ok]))
-	}
-	acc.report(c, r, "C05-R6/valid-data", vd)
+	ruleValidDataTable(c, r, "C05-R6/valid-data")
 
 	// one signature, one execution: shared with C06 (replay guard dominance, same table on the block's tx)
 	ruleReplayGuard(c, r, "C05-R7/one-signature-one-execution")
@@ -460,4 +425,44 @@ func validatedBytes(c *Ctx, r *Report, rule string) {
 	if n == 0 {
 		r.undecided(rule, "factom RCD validators", "-", "no ValidateRCD* function with a sig parameter found in the dependency")
 	}
+}
+
+// ruleValidDataTable: ValidData accepts exactly version 1, at least one transaction, one input address (shared with C20).
+func ruleValidDataTable(c *Ctx, r *Report, rule string) {
+	// R6 ValidData table
+	r.rule(rule, 4, "version, non-empty, single input address")
+	vd := c.fn("fat2.TransactionBatch.ValidData")
+	acc := newTableAcc()
+	for _, cs := range []struct {
+		name    string
+		version uint64
+		ntx     int64
+		nuniq   int64
+		ok      bool
+	}{
+		{"version 1, one input address", 1, 2, 1, true},
+		{"version 2", 2, 2, 1, false},
+		{"version 0", 0, 2, 1, false},
+		{"no transactions", 1, 0, 1, false},
+		{"two input addresses", 1, 2, 2, false},
+		{"zero input addresses", 1, 2, 0, false},
+	} {
+		// len(uniqueInputs): the map is a local make; bind the builtin len of a map-typed local by a dedicated key
+		sc := &Scenario{Paths: map[string]AVal{"fat2.TransactionBatch.Version": cUint(cs.version)},
+			Lens:  map[string]AVal{"fat2.TransactionBatch.Transactions": cInt(cs.ntx), "<local map>": cInt(cs.nuniq)},
+			Calls: map[string]AVal{"fat2.Transaction.Validate": nilVal}, MaxDepth: 0}
+		s := newSCCP(c, sc)
+		st := s.run(vd, nil, 0)
+		acc.absorb(s)
+		r.Scen++
+		errs := errorReturns(st)
+		hasNil := false
+		for _, x := range errs {
+			if x == "nil" {
+				hasNil = true
+			}
+		}
+		r.check(hasNil == cs.ok, rule, cs.name, c.pos(vd.Pos()), map[bool]string{true: "accepted", false: "rejected"}[cs.ok], fmt.Sprintf("results %v, expected %s", errs, map[bool]string{true: "accepted", false: "rejected"}[cs.ok]))
+	}
+	acc.report(c, r, rule, vd)
 }
